@@ -19,22 +19,29 @@ VARIABLES pending,    \* works accepted by the acceptor, not yet received by the
           alive,      \* the loop is still running
           progress,   \* loop iterations the canary has been served
           finished,   \* works that were shut down (their shutdown was called)
+          advfd,      \* the descriptor adv's get_events reports: "main" | "alt" (a work may replace a connection of its own)
+          regfds,     \* descriptors of adv the executor holds registrations for
           advmask,    \* events adv's get_events asks for: "r" | "rw" (a work with output pending also asks for writability)
           regmask,    \* events under which adv's descriptor was last registered / modified
           vanished    \* the selector has silently dropped adv's descriptor (closed / reused number: epoll forgets it) while the
                       \* executor's bookkeeping still lists it: adv gets no events, and unregistering it raises KeyError
-vars == <<pending, works, registered, armed, advwants, alive, progress, finished, vanished, advmask, regmask>>
+vars == <<pending, works, registered, armed, advwants, alive, progress, finished, vanished, advmask, regmask, advfd, regfds>>
 
 Init == /\ pending \in {<<"adv", "can">>, <<"can", "adv">>, <<"can">>} /\ works = {} /\ registered = {} /\ armed = "none" /\ advwants = "go"
-        /\ alive = TRUE /\ progress = 0 /\ finished = {} /\ vanished = FALSE /\ advmask = "r" /\ regmask = "r"
+        /\ alive = TRUE /\ progress = 0 /\ finished = {} /\ vanished = FALSE /\ advmask = "r" /\ regmask = "r" /\ advfd = "main" /\ regfds = {}
 
 \* environment: arm a fault at a call site of the adversary / make it ask for teardown / a new adversary connects
-Arm(s) == armed = "none" /\ alive /\ armed' = s /\ UNCHANGED <<pending, works, registered, advwants, alive, progress, finished, vanished, advmask, regmask>>
-Vanish == "adv" \in registered /\ alive /\ ~vanished /\ vanished' = TRUE /\ UNCHANGED <<pending, works, registered, armed, advwants, alive, progress, finished, advmask, regmask>>
-WantTeardown == advwants = "go" /\ alive /\ advwants' = "teardown" /\ UNCHANGED <<pending, works, registered, armed, alive, progress, finished, vanished, advmask, regmask>>
+Arm(s) == armed = "none" /\ alive /\ armed' = s /\ UNCHANGED <<pending, works, registered, advwants, alive, progress, finished, vanished, advmask, regmask, advfd, regfds>>
+Vanish == "adv" \in registered /\ alive /\ ~vanished /\ advfd = "main" /\ vanished' = TRUE /\ UNCHANGED <<pending, works, registered, armed, advwants, alive, progress, finished, advmask, regmask, advfd, regfds>>
+WantTeardown == advwants = "go" /\ alive /\ advwants' = "teardown" /\ UNCHANGED <<pending, works, registered, armed, alive, progress, finished, vanished, advmask, regmask, advfd, regfds>>
 \* adv starts asking for other events than it is registered for: the executor will call selector.modify, which raises for a
 \* descriptor the selector has lost (epoll_ctl(MOD) -> ENOENT after the number was closed / reused)
-WantWrite == advmask = "r" /\ alive /\ advmask' = "rw" /\ UNCHANGED <<pending, works, registered, armed, advwants, alive, progress, finished, vanished, regmask>>
+WantWrite == advmask = "r" /\ alive /\ advmask' = "rw" /\ UNCHANGED <<pending, works, registered, armed, advwants, alive, progress, finished, vanished, regmask, advfd, regfds>>
+
+\* adv starts reporting another descriptor (it replaced a connection of its own): the executor registers the new one and
+\* forgets the old one, whose number may come back with a different socket
+Swap == advfd = "main" /\ alive /\ ~vanished /\ advfd' = "alt"
+        /\ UNCHANGED <<pending, works, registered, armed, advwants, alive, progress, finished, vanished, advmask, regmask, regfds>>
 
 Raises(w, s) == w = "adv" /\ armed = s
 
@@ -57,7 +64,7 @@ ModBoom == ~GeBoom /\ "adv" \in works /\ "adv" \in registered /\ vanished /\ adv
 
 Tick ==
     /\ alive
-    /\ regmask' = (IF "adv" \in works /\ ~GeBoom /\ ~ModBoom THEN advmask ELSE regmask) /\ UNCHANGED advmask
+    /\ regmask' = (IF "adv" \in works /\ ~GeBoom /\ ~ModBoom THEN advmask ELSE regmask) /\ UNCHANGED <<advmask, advfd>>
     /\ LET st0 == [works |-> works, registered |-> registered, finished |-> finished, alive |-> alive, armed |-> armed]
            \* 1. refresh selector registrations: get_events of every held work
            geBoom == GeBoom
@@ -70,7 +77,7 @@ Tick ==
                         ELSE [st0 EXCEPT !.alive = FALSE])
                   ELSE [st0 EXCEPT !.registered = works]
        IN IF ~st1.alive THEN /\ alive' = FALSE /\ armed' = st1.armed /\ works' = st1.works /\ registered' = st1.registered
-                             /\ finished' = st1.finished /\ UNCHANGED <<pending, advwants, progress, vanished>>
+                             /\ finished' = st1.finished /\ UNCHANGED <<pending, advwants, progress, vanished, regfds>>
           ELSE
           \* 2. accept new work: initialize (a raise there is contained: the work is cleaned up at once)
           LET newcomers == IF pending = <<>> THEN {} ELSE {Head(pending)}
@@ -89,6 +96,9 @@ Tick ==
           IN /\ works' = st4.works /\ registered' = st4.registered /\ finished' = st4.finished /\ alive' = st4.alive
              /\ armed' = st4.armed /\ pending' = (IF pending = <<>> THEN <<>> ELSE Tail(pending)) /\ progress' = IF canServed THEN progress + 1 ELSE progress
              /\ UNCHANGED advwants /\ vanished' = (vanished /\ "adv" \in st4.registered)
+             /\ regfds' = (IF "adv" \notin st4.registered THEN {}
+                           ELSE IF "adv" \in st1.registered /\ "adv" \in works THEN (IF FIX THEN {advfd} ELSE regfds \cup {advfd})
+                           ELSE regfds)          \* accepted in this iteration: registered from the next one on
 
 Reap ==
     /\ alive
@@ -97,9 +107,10 @@ Reap ==
            st1 == IF boom THEN (IF FIX THEN CleanupOf("adv", [st0 EXCEPT !.armed = "none"]) ELSE [st0 EXCEPT !.alive = FALSE, !.armed = "none"])
                   ELSE st0
        IN /\ works' = st1.works /\ registered' = st1.registered /\ finished' = st1.finished /\ alive' = st1.alive /\ armed' = st1.armed
-          /\ UNCHANGED <<pending, advwants, progress, advmask, regmask>> /\ vanished' = (vanished /\ "adv" \in st1.registered)
+          /\ UNCHANGED <<pending, advwants, progress, advmask, regmask, advfd>> /\ vanished' = (vanished /\ "adv" \in st1.registered)
+          /\ regfds' = (IF "adv" \in st1.registered THEN regfds ELSE {})
 
-Next == (\E s \in Sites : Arm(s)) \/ WantTeardown \/ WantWrite \/ Vanish \/ Tick \/ Reap
+Next == (\E s \in Sites : Arm(s)) \/ WantTeardown \/ WantWrite \/ Vanish \/ Swap \/ Tick \/ Reap
 Spec == Init /\ [][Next]_vars
 FairSpec == Spec /\ WF_vars(Tick)
 
@@ -107,6 +118,8 @@ FairSpec == Spec /\ WF_vars(Tick)
 LoopSurvives == alive
 \* nothing of a finished work stays behind in the executor's bookkeeping
 NoResidue == \A w \in finished : (w \notin registered) /\ (FIX => w \notin works)
+\* the executor holds registrations only for the descriptor a work reported last (no stale numbers that could come back)
+NoStaleRegistrations == FIX => Cardinality(regfds) <= 1
 \* the canary completes exactly as it would alone: after K iterations in which it was served, whatever the adversary does
 CanaryCompletes == <>(progress = K /\ "can" \in finished)
 CanaryUndisturbed == progress <= K
